@@ -996,6 +996,26 @@ func copyVersions(srcStore, dstStore dvid.Store, d1, d2 dvid.Data, uuids []dvid.
 		for _, v := range versionsToStore {
 			kvsToStore[v] = nil
 		}
+		// stores curKV under version v in the destination; false if the key could not be rewritten
+		putVersion := func(curKV *storage.KeyValue, v dvid.VersionID) bool {
+			keybuf := make(storage.Key, len(curKV.K))
+			copy(keybuf, curKV.K)
+			if dataInstanceChanged {
+				err = storage.ChangeDataKeyInstance(keybuf, d2.InstanceID())
+				if err != nil {
+					dvid.Errorf("could not change instance ID of key to %d: %v\n", d2.InstanceID(), err)
+					return false
+				}
+			}
+			storage.ChangeDataKeyVersion(keybuf, v)
+			kvSent++
+			bytesSent += uint64(len(curKV.V) + len(keybuf))
+			if err := dstDB.RawPut(keybuf, curKV.V); err != nil {
+				dvid.Errorf("can't put k/v pair to destination instance %q: %v\n", d2.DataName(), err)
+			}
+			statsStored.addKV(keybuf, curKV.V)
+			return true
+		}
 		for {
 			kv := <-rawCh
 			if kv != nil && !storage.Key(kv.K).IsDataKey() {
@@ -1008,23 +1028,13 @@ func copyVersions(srcStore, dstStore dvid.Store, d1, d2 dvid.Data, uuids []dvid.
 					for _, v := range versionsToStore {
 						curKV := kvsToStore[v]
 						if lastKV == nil || (curKV != nil && bytes.Compare(lastKV.V, curKV.V) != 0) {
-							if curKV != nil {
-								keybuf := make(storage.Key, len(curKV.K))
-								copy(keybuf, curKV.K)
-								if dataInstanceChanged {
-									err = storage.ChangeDataKeyInstance(keybuf, d2.InstanceID())
-									if err != nil {
-										dvid.Errorf("could not change instance ID of key to %d: %v\n", d2.InstanceID(), err)
-										continue
-									}
-								}
-								storage.ChangeDataKeyVersion(keybuf, v)
-								kvSent++
-								bytesSent += uint64(len(curKV.V) + len(keybuf))
-								if err := dstDB.RawPut(keybuf, curKV.V); err != nil {
-									dvid.Errorf("can't put k/v pair to destination instance %q: %v\n", d2.DataName(), err)
-								}
-								statsStored.addKV(keybuf, curKV.V)
+							if curKV != nil && putVersion(curKV, v) {
+								lastKV = curKV
+							}
+						} else if curKV != nil && curKV.K.IsTombstone() != lastKV.K.IsTombstone() {
+							// a deletion and a zero-length value carry the same (empty) bytes
+							// but are not the same entry
+							if putVersion(curKV, v) {
 								lastKV = curKV
 							}
 						}
